@@ -36,7 +36,8 @@ class C18(Check):
     RULE = ('case = generated layout (struct with 2..3 members, combined or member access methods; float-enum label set; '
             'limit configuration min/max/limits; 1..3 controllers on one output) + history of <= 25 operations issued by '
             'a wire client (change/read of struct, member, float, index, limits incl. inverted, targets) or by the driver '
-            '(assignments, reads); distinct = different (case digest, schedule digest); non-trivial = >= 4 operations '
+            '(assignments, reads), 20 % of the struct operations with a one-shot hardware fault, 30 % of struct/float-enum '
+            'operations with a concurrent driver-side assignment (executed for index writes and combined-access structs); distinct = different (case digest, schedule digest); non-trivial = >= 4 operations '
             'touching >= 2 of the linked kinds')
     REAL = ['frappy.extparams.StructParam / FloatEnumParam', 'frappy.params.Limit + Module.checkLimits',
             'frappy.mixins.HasControlledBy / HasOutputModule', 'frappy.modulebase (callbacks, wrappers)',
